@@ -38,7 +38,7 @@ K_MATCH = 8.0         # matching, boundaries: K_MATCH * delta * gamma+^2 gamma-^
 #                       delta = rtol + atol/min(vp,Tp,Tm) + rtol/|Tp/Tn - 1|; the last term is
 #                       the conditioning of the shooting in v+: the residual T_shock(v+) - Tn is
 #                       only known to rtol*Tn while its signal is the heating (Tp - Tn)
-K_VMIN = 60.0         # |vMin difference| <= K_VMIN * (atol + rtol*vMin)
+K_VMIN = 60.0         # |vMin difference| <= K_VMIN * (atol + (rtol + atol/Tn)*vMin)
 K_LTE = 60.0          # |vwLTE difference| <= K_LTE * (atol + (rtol + atol/Tn)*vw)
 TOL_KAPPA = 0.15      # efficiency factor at the default rtol=atol=1e-6: both classes apply
 #                       Simpson's rule on solve_ivp's own adaptive steps, which limits the
@@ -66,6 +66,9 @@ DIRECTED = [
     # cb2 > cs2: kappa from an unconverged general matching
     dict(case=dict(kind="template", alN=0.06637, psiN=0.813, cb2=0.269, cs2=0.2099,
                    Tn=94.9), vws=[0.3], kappa_vws=[0.5386161604120203]),
+    # template findvwLTE returns a sign change of its discontinuous residual
+    dict(case=dict(kind="template", alN=0.22323, psiN=0.656, cb2=0.2023, cs2=0.3229,
+                   Tn=0.1205), vws=[0.5], lte=True),
     # cb2 > cs2 corners of the round-2 seeded changes (must agree on the unchanged tree)
     dict(case=dict(kind="template", alN=0.15, psiN=0.93, cb2=0.31, cs2=0.24, Tn=1.0),
          vws=[0.5, 0.7], lte=True),
@@ -178,7 +181,7 @@ def compare(ctx, case, stats, rng, n_vw, with_lte=True, with_kappa=True, vws=Non
     # minimal velocity (the general class floors it at vBracketLow)
     vmin_t = max(hg.vBracketLow, ht.vMin)
     d = abs(hg.vMin - vmin_t)
-    tolv = K_VMIN * (ATOL + RTOL * vmin_t)
+    tolv = K_VMIN * (ATOL + (RTOL + ATOL / Tn) * vmin_t)    # atol is absolute in T as well
     stats.append(("vMin", d / tolv, dict(case=case)))
     ctx.count("vMin", bucket="floor" if vmin_t == hg.vBracketLow else "shock-limited")
     if d > tolv:
@@ -315,6 +318,30 @@ def compare(ctx, case, stats, rng, n_vw, with_lte=True, with_kappa=True, vws=Non
                     note = " (general value verified: fluxes, entropy, shock)" if ok else \
                         " (general value NOT a solution: shock reaches %.4g Tn)" % (
                             hg.solveHydroShock(lg, vp, Tp) / Tn)
+                if key == "vwLTE" and 0 < lg < 1 and 0 < lt < 1:
+                    # which value is a root?  general: fluxes, entropy, shock, converged 2x2
+                    # solve; template: its own residual shootingInLTE at both values
+                    try:
+                        from WallGo.helpers import gammaSq
+                        with base.Spy(hg) as lspy:
+                            vp, vm, Tp, Tm = (float(x) for x in hg.matchDeflagOrHyb(lg))
+                        e1, e2, m1, m2 = base.fluxes(th, vp, vm, Tp, Tm)
+                        gen_ok = general_state(hg, lspy) == "ok" and rel(e1, e2) < 1e-6 and \
+                            rel(m1, m2) < 1e-6 and abs(Tp * math.sqrt(gammaSq(vp)) / (
+                                Tm * math.sqrt(gammaSq(vm))) - 1) < 1e-6 and abs(
+                                hg.solveHydroShock(lg, vp, Tp) / Tn - 1) < 100 * dT
+
+                        def tres(v):
+                            return float(ht._shooting(v, ht.getVp(min(ht.cb, v),
+                                                                 ht.solveAlpha(v))))
+                        rt_, rg_ = tres(lt), tres(lg)
+                        if gen_ok and abs(rt_) > 1e-3 and abs(rg_) < 1e-4:
+                            key = "template-vwLTE-spurious-root"
+                            note = (" (general value verified; the template's own residual "
+                                    "is %.3g at its value and %.3g at the general one)" % (
+                                        rt_, rg_))
+                    except Exception:
+                        pass
                 fail("vwLTE: general %.12g, template %.12g%s" % (lg, lt, note), key,
                      quantity="vwLTE")
         except Exception as ex:
@@ -633,7 +660,7 @@ def run(ctx):
         "and boundaries %g*(rtol+atol/min(vp,Tp,Tm)+rtol/heating+S*(rtol+atol/vp))*gamma+^2*"
         "gamma-^2 (heating = Tp/Tn-1, treated as unresolved when < 1%% and the classes differ "
         "by as much; S = |dln w+/dln v+|/mu from the closed forms), vwLTE "
-        "%g*(atol+(rtol+atol/Tn)*vw), vMin %g*(atol+rtol*vMin); the measured worst difference/tolerance ratios are in "
+        "%g*(atol+(rtol+atol/Tn)*vw), vMin %g*(atol+(rtol+atol/Tn)*vMin); the measured worst difference/tolerance ratios are in "
         "coverage.worst_difference_over_tolerance; distinct = distinct (parameter set, vw)"
         % (TOL_KAPPA, K_KAPPA_T, TOL_KAPPA_TIGHT, K_VJ, K_MATCH, K_LTE, K_VMIN))
     ctx.assumptions += [
